@@ -24,6 +24,12 @@ type Config struct {
 	HiddenLoud bool
 	// NoErrArgs disables error arguments to printf-style constructors.
 	NoErrArgs bool
+	// LongStrings: see StrGen.Long.
+	LongStrings bool
+	// NoEcho disables the string-correlation post-pass.
+	NoEcho bool
+	// EmptyOverride enables the wrapper kind whose full message is "".
+	EmptyOverride bool
 }
 
 // Gen generates trees.
@@ -39,7 +45,7 @@ type Gen struct {
 
 // New returns a generator.
 func New(t *tape.Tape, cfg Config) *Gen {
-	g := &Gen{T: t, SG: &StrGen{T: t, Alpha: cfg.Alpha}, Cfg: cfg}
+	g := &Gen{T: t, SG: &StrGen{T: t, Alpha: cfg.Alpha, Long: cfg.LongStrings}, Cfg: cfg}
 	if g.Cfg.MaxDepth == 0 {
 		g.Cfg.MaxDepth = 6
 	}
@@ -48,6 +54,9 @@ func New(t *tape.Tape, cfg Config) *Gen {
 	}
 	for k := Kind(0); k < NumKinds; k++ {
 		g.enabled[k] = cfg.Allow == nil || cfg.Allow(k)
+	}
+	if !cfg.EmptyOverride {
+		g.enabled[WUFullEmpty] = false
 	}
 	if cfg.Swarm {
 		// Each optional group is switched off with probability 1/4.
@@ -69,11 +78,65 @@ func New(t *tape.Tape, cfg Config) *Gen {
 // Tree draws one error tree.
 func (g *Gen) Tree() *Node {
 	g.budget = g.Cfg.MaxNodes
+	var n *Node
 	if len(g.Cfg.RootKinds) > 0 {
 		k := g.Cfg.RootKinds[g.T.Draw(len(g.Cfg.RootKinds))]
-		return g.fill(k, 1, false)
+		n = g.fill(k, 1, false)
+	} else {
+		n = g.node(1, false)
 	}
-	return g.node(1, false)
+	g.echo(n)
+	return n
+}
+
+// echo correlates strings of the tree: with probability 1/3 one string slot
+// is replaced by (a variation of) another slot's string of the same safety
+// class, so that e.g. a wrapper's prefix equals or ends with its cause's
+// text, two layers carry the same message, or a key is repeated. The
+// overwritten slot loses its own token (it no longer exists anywhere).
+func (g *Gen) echo(root *Node) {
+	if g.Cfg.NoEcho || !g.T.Bool(1, 3) {
+		return
+	}
+	type slot struct {
+		s *Str
+	}
+	var slots []slot
+	root.Walk(func(n *Node, _ bool) {
+		if n.K == WOpErr || kinds[n.K].Tags {
+			return
+		}
+		for i := range n.S {
+			if n.S[i].V != "" {
+				slots = append(slots, slot{&n.S[i]})
+			}
+		}
+	})
+	if len(slots) < 2 {
+		return
+	}
+	a := slots[g.T.Draw(len(slots))].s
+	var cands []*Str
+	for _, x := range slots {
+		if x.s != a && x.s.Safe == a.Safe && x.s.Neutral == a.Neutral {
+			cands = append(cands, x.s)
+		}
+	}
+	if len(cands) == 0 {
+		return
+	}
+	b := cands[g.T.Draw(len(cands))]
+	switch g.T.Draw(4) {
+	case 0:
+		a.V = b.V
+	case 1:
+		a.V = "x " + b.V
+	case 2:
+		a.V = b.V + " x"
+	default:
+		a.V = "x: " + b.V
+	}
+	a.Tok = ""
 }
 
 // Sub draws an additional independent tree with the given node budget.
@@ -156,6 +219,14 @@ func (g *Gen) fill(k Kind, depth int, hidden bool) *Node {
 	for _, b := range ki.NInts {
 		n.N = append(n.N, g.T.Draw(b))
 	}
+	if k == WTelemetry && g.T.Bool(1, 4) {
+		// the same key twice in one annotation
+		n.S[1].V = n.S[0].V
+		n.S[1].Tok = ""
+	}
+	if k == WUNote && n.N[0] == 0 {
+		n.S[0].Tok = "" // no note: the slot is unused
+	}
 	if k == WOpErr {
 		// unused address slots carry no token
 		if n.N[0]&1 == 0 {
@@ -179,7 +250,7 @@ func (g *Gen) fill(k Kind, depth int, hidden bool) *Node {
 				a = Arg{Kind: ArgUnsafeStr, S: g.SG.Str(false)}
 			case c < 5:
 				a = Arg{Kind: ArgSafeStr, S: g.SG.Str(true)}
-			case c < 7 || g.Cfg.NoErrArgs || !g.enabled[WSecondary] || g.budget < 1 || k == WSafeDetails || k == WMessagef:
+			case c < 7 || g.Cfg.NoErrArgs || !g.enabled[WSecondary] || g.budget < 1 || k == WSafeDetails || k == WMessagef || k == LHandledMsgf:
 				a = Arg{Kind: ArgInt, N: g.T.Draw(1000)}
 			default:
 				a = Arg{Kind: ArgErr, Hid: len(n.Hid)}
@@ -232,7 +303,8 @@ func (g *Gen) fill(k Kind, depth int, hidden bool) *Node {
 		if g.budget > 3 {
 			nk += g.T.Draw(3)
 		}
-		if g.T.Bool(1, 6) {
+		if g.T.Bool(1, 6) && k != MFmt {
+			// (fmt.Errorf with a single %w is an ordinary wrapper, not a multi-cause error)
 			nk = 1
 		}
 		if nk > g.budget {
